@@ -52,7 +52,7 @@ lane() {
     fallback=""
     if ! (cd "$G" && cargo build --release --offline --quiet 2>"$G/build.log"); then
       local ok=""
-      for feats in "likelysubtags" "path_shadow" "" "likelysubtags nogens" "nogens"; do
+      for feats in "likelysubtags libgen" "path_shadow likelysubtags" "likelysubtags" "path_shadow libgen" "path_shadow" "" "likelysubtags nogens" "nogens"; do
         if (cd "$G" && cargo build --release --offline --quiet --no-default-features --features "$feats" 2>"$G/build.log"); then
           ok=yes; fallback=" [fallback build: features='$feats']"; break
         fi
